@@ -881,3 +881,191 @@ Lemma union_container_witness :
   run_pack E_uc Mixin None t_uc v_uc = Ok (VList [VDict [("y", VInt 1)]; VObj "B" [("y", VInt 2)]]) /\
   run_pack E_uc Codec None t_uc v_uc = Ok (VList [VDict [("y", VInt 1)]; VDict [("y", VInt 2)]]).
 Proof. repeat split; reflexivity. Qed.
+
+(* ------------------------------------------------------------------ *)
+(* decoding: the two paths agree on EVERY input (both dispatch statically); only the class of the
+   "no union member matched" error differs (InvalidFieldValue on a class, ValueError in a codec), and below a
+   dataclass not even that                                                                       *)
+Section TyInd.
+  Variable P : ty -> Prop.
+  Hypothesis HI : P TInt.
+  Hypothesis HS : P TStr.
+  Hypothesis HD : P TDate.
+  Hypothesis HL : forall t, P t -> P (TList t).
+  Hypothesis HDi : forall t, P t -> P (TDict t).
+  Hypothesis HT : forall ts, Forall P ts -> P (TTuple ts).
+  Hypothesis HO : forall t, P t -> P (TOpt t).
+  Hypothesis HU : forall ts, Forall P ts -> P (TUnion ts).
+  Hypothesis HDa : forall c, P (TData c).
+  Fixpoint ty_ind' (t: ty) : P t :=
+    match t with
+    | TInt => HI | TStr => HS | TDate => HD
+    | TList t' => HL t' (ty_ind' t')
+    | TDict t' => HDi t' (ty_ind' t')
+    | TTuple ts => HT ts ((fix go (l: list ty) : Forall P l :=
+                             match l with [] => Forall_nil _ | x :: r => Forall_cons _ (ty_ind' x) (go r) end) ts)
+    | TOpt t' => HO t' (ty_ind' t')
+    | TUnion ts => HU ts ((fix go (l: list ty) : Forall P l :=
+                             match l with [] => Forall_nil _ | x :: r => Forall_cons _ (ty_ind' x) (go r) end) ts)
+    | TData c => HDa c
+    end.
+End TyInd.
+
+Lemma norm_ok {A} (a: A) : norm (Ok a) = Ok a.
+Proof. reflexivity. Qed.
+
+Lemma norm_fmap {A B} (h: A -> B) r : fmap h (norm r) = norm (fmap h r).
+Proof. destruct r; reflexivity. Qed.
+
+Lemma mapM_norm {A B} (f g: A -> res B) l :
+  (forall x, In x l -> f x = norm (g x)) -> mapM f l = norm (mapM g l).
+Proof.
+  induction l as [|x r IH]; intros H; simpl; [reflexivity|].
+  rewrite (H x (or_introl eq_refl)). destruct (g x) as [y|e]; simpl; [|reflexivity].
+  rewrite IH; [|intros z Hz; apply H; right; exact Hz].
+  destruct (mapM g r); reflexivity.
+Qed.
+
+Lemma mapM_err_from {A B} (f: A -> res B) l e :
+  mapM f l = Err e -> exists x, In x l /\ f x = Err e.
+Proof.
+  induction l as [|x r IH]; simpl; [discriminate|].
+  destruct (f x) as [y|e'] eqn:Hx.
+  - destruct (mapM f r) as [ys|e''] eqn:Hr; [discriminate|].
+    intros H. inversion H; subst. destruct (IH eq_refl) as [z [Hz Hfz]]. exists z. split; [right; exact Hz|exact Hfz].
+  - intros H. inversion H; subst. exists x. split; [left; reflexivity|exact Hx].
+Qed.
+
+Section UnpackEqns.
+  Variables (E: env) (m: mode).
+  Notation up := (unpack E m).
+
+  Lemma unpack_TUnion v ts : up v (TUnion ts) = phase1 m v (up v) ts ts.
+  Proof. destruct v; reflexivity. Qed.
+  Lemma unpack_TOpt v t' : up v (TOpt t') = match v with VNone => Ok VNone | _ => up v t' end.
+  Proof. destruct v; reflexivity. Qed.
+  Lemma unpack_TInt v : up v TInt = coerce_int v.
+  Proof. destruct v; reflexivity. Qed.
+  Lemma unpack_TStr v : up v TStr = coerce_str v.
+  Proof. destruct v; reflexivity. Qed.
+  Lemma unpack_TDate v :
+    up v TDate = match v with VStr s => if is_iso s then Ok (VDate s) else Err XRaw | _ => Err XRaw end.
+  Proof. destruct v; reflexivity. Qed.
+End UnpackEqns.
+
+Lemma coerce_int_norm v : coerce_int v = norm (coerce_int v).
+Proof. destruct v; simpl; try reflexivity. destruct (parse_int s); reflexivity. Qed.
+Lemma coerce_str_norm v : coerce_str v = norm (coerce_str v).
+Proof. destruct v; reflexivity. Qed.
+
+Lemma phase2_norm v (f g: ty -> res val) l :
+  phase2 Mixin v l = norm (phase2 Codec v l).
+Proof.
+  induction l as [|t r IH]; [reflexivity|].
+  destruct t; simpl; try exact IH.
+  - destruct v; simpl; try exact IH; try reflexivity. destruct (parse_int s); [reflexivity|exact IH].
+  - destruct v; simpl; try exact IH; reflexivity.
+Qed.
+
+Lemma phase1_norm v (f g: ty -> res val) all l :
+  (forall t', In t' l -> f t' = norm (g t')) ->
+  phase1 Mixin v f all l = norm (phase1 Codec v g all l).
+Proof.
+  induction l as [|t r IH]; intros H; [simpl; apply (phase2_norm v f g)|].
+  assert (IH': phase1 Mixin v f all r = norm (phase1 Codec v g all r))
+    by (apply IH; intros t' Ht'; apply H; right; exact Ht').
+  assert (Hgen: forall t0, t0 = t -> f t0 = norm (g t0)) by (intros t0 ->; apply H; left; reflexivity).
+  destruct t;
+    try (simpl; rewrite (Hgen _ eq_refl);
+         match goal with |- context [g ?x] => destruct (g x) as [y|e] end;
+         simpl; [reflexivity|destruct e; simpl; try exact IH'; reflexivity]).
+  - destruct v; simpl; try exact IH'; reflexivity.
+  - destruct v; simpl; try exact IH'; reflexivity.
+Qed.
+
+Lemma tuple_cl_norm (l: list val) (F G: val -> ty -> res val) ts :
+  Forall (fun x => forall t, F x t = norm (G x t)) l ->
+  tuple_cl (map F l) ts = norm (tuple_cl (map G l) ts).
+Proof.
+  revert ts. induction l as [|x r IH]; intros [|t tr] Hall; simpl; try reflexivity.
+  inversion Hall as [|? ? Hx Hr]; subst. rewrite (Hx t). destruct (G x t) as [y|e]; simpl; [|reflexivity].
+  rewrite (IH tr Hr). destruct (tuple_cl (map G r) tr); reflexivity.
+Qed.
+
+Section UnpackAgree.
+  Variable E: env.
+  Notation um := (unpack E Mixin).
+  Notation uc := (unpack E Codec).
+
+  (* the generated field blocks turn every exception of a value unpacker into InvalidFieldValue: the class of
+     the inner error is not observable *)
+  Lemma unpack_fields_same c d (clm clc: list (string * (ty -> res val))) :
+    (forall key, match assoc clm key, assoc clc key with
+                 | Some gm, Some gc => forall t, gm t = norm (gc t)
+                 | None, None => True
+                 | _, _ => False end) ->
+    unpack_fields_cl c d clm = unpack_fields_cl c d clc.
+  Proof.
+    intros H. unfold unpack_fields_cl. f_equal. apply mapM_ext_in. intros f _.
+    specialize (H (match f_alias f with Some a => a | None => f_name f end)).
+    destruct (assoc clm _) as [gm|], (assoc clc _) as [gc|]; try contradiction; [|reflexivity].
+    rewrite (H (f_ty f)). destruct (gc (f_ty f)) as [y|e]; simpl; [reflexivity|destruct e; reflexivity].
+  Qed.
+
+  Lemma unpack_fields_no_union c d cl e :
+    unpack_fields_cl c d cl = Err e -> norm_err e = e.
+  Proof.
+    unfold unpack_fields_cl. destruct (mapM _ (c_fields d)) as [ys|e'] eqn:Hm; simpl; [discriminate|].
+    intros H. inversion H; subst. destruct (mapM_err_from _ _ _ Hm) as [f [_ Hf]].
+    destruct (assoc cl _) as [g|]; [|inversion Hf; reflexivity].
+    destruct (g (f_ty f)) as [y|e0]; [discriminate|]. destruct e0; inversion Hf; reflexivity.
+  Qed.
+
+  Theorem unpack_agree_all : forall v t, um v t = norm (uc v t).
+  Proof.
+    induction v using val_ind'; intros t; induction t using ty_ind';
+      try (rewrite !unpack_TInt; apply coerce_int_norm);
+      try (rewrite !unpack_TStr; apply coerce_str_norm);
+      try (rewrite !unpack_TDate; simpl; try reflexivity; match goal with |- context [is_iso ?s] => destruct (is_iso s); reflexivity end);
+      try (rewrite !unpack_TOpt; first [reflexivity | assumption]);
+      try (rewrite !unpack_TUnion; apply phase1_norm; intros t' Ht';
+           match goal with Hf: Forall _ ?ts |- _ => rewrite Forall_forall in Hf; exact (Hf t' Ht') end);
+      try reflexivity.
+    all: try (simpl; destruct (find_cls E c) as [d|]; reflexivity).
+    all: try (simpl; destruct ts; reflexivity).
+    - (* VList / TList *)
+      simpl. rewrite <- norm_fmap. f_equal. apply mapM_norm. intros x Hx. rewrite Forall_forall in H. exact (H x Hx t).
+    - (* VList / TTuple *)
+      simpl. destruct ts as [|t0 tr]; [reflexivity|]. rewrite <- norm_fmap. f_equal. apply tuple_cl_norm. exact H.
+    - (* VTuple / TList *)
+      simpl. rewrite <- norm_fmap. f_equal. apply mapM_norm. intros x Hx. rewrite Forall_forall in H. exact (H x Hx t).
+    - (* VTuple / TTuple *)
+      simpl. destruct ts as [|t0 tr]; [reflexivity|]. rewrite <- norm_fmap. f_equal. apply tuple_cl_norm. exact H.
+    - (* VDict / TDict *)
+      simpl. rewrite <- norm_fmap. f_equal. apply mapM_norm. intros [k x] Hx. rewrite Forall_forall in H.
+      pose proof (H (k, x) Hx t) as Hq. simpl in Hq. rewrite Hq. destruct (uc x t); reflexivity.
+    - (* VDict / TData *)
+      simpl. destruct (find_cls E c) as [d|]; [|reflexivity].
+      rewrite (unpack_fields_same c d
+                 (map (fun kv : string * val => match kv with (k, x) => (k, um x) end) kvs)
+                 (map (fun kv : string * val => match kv with (k, x) => (k, uc x) end) kvs)).
+      + destruct (unpack_fields_cl c d _) as [y|e] eqn:He; simpl; [reflexivity|].
+        rewrite (unpack_fields_no_union _ _ _ _ He). reflexivity.
+      + intros key. rewrite (assoc_map um), (assoc_map uc).
+        destruct (assoc kvs key) as [x|] eqn:Ha; simpl; [|exact I].
+        intros t0. rewrite Forall_forall in H.
+        assert (Hin: In (key, x) kvs).
+        { clear -Ha. induction kvs as [|[k' x'] r IH]; simpl in *; [discriminate|].
+          destruct (String.eqb_spec k' key) as [->|Hne]; [inversion Ha; left; reflexivity|right; apply IH; exact Ha]. }
+        exact (H (key, x) Hin t0).
+    - (* VObj / TData *) simpl. destruct (find_cls E c0) as [d|]; reflexivity.
+  Qed.
+
+  (* below a dataclass the paths agree exactly *)
+  Theorem unpack_agree_data v c : um v (TData c) = uc v (TData c).
+  Proof.
+    rewrite unpack_agree_all. destruct (uc v (TData c)) as [y|e] eqn:He; [reflexivity|]. simpl. f_equal.
+    destruct v; simpl in He; destruct (find_cls E c) as [d|]; try (inversion He; reflexivity).
+    exact (unpack_fields_no_union _ _ _ _ He).
+  Qed.
+End UnpackAgree.
